@@ -455,14 +455,6 @@ func scenC19(r *Run, job *Job) {
 	r.DisableHolds()
 	r.Settle()
 	judge()
-	// classification for the known-findings file: a Terminate / Kill goroutine that was descheduled between its
-	// "still running?" check and its system call, while pids were being recycled - the window every signal-by-pid
-	// interface has (no pidfd); anything the final judge reports in such a run carries this tag
-	for _, h := range r.Holds {
-		if h.W != nil && smallPids && (strings.Contains(h.Sig, "Kernel).Getpgid") || strings.Contains(h.Sig, "Kernel).Kill")) {
-			r.Known = "pid-reuse-toctou@" + h.Sig
-		}
-	}
 	c19Final(r, k, order, calls, got)
 }
 
@@ -650,6 +642,24 @@ func c19Final(r *Run, k *simkernel.Kernel, order []*c19Plan, calls []*c19Call, g
 				}
 				if s.Sig == simkernel.SIGTERM && c.kind == "terminate" || s.Sig == simkernel.SIGKILL && c.kind == "kill" {
 					explained = true
+				}
+			}
+			if !explained {
+				// classification for the known-findings file: who sent it? A request for another name whose process had
+				// been reaped by the kernel (pid free again) although the supervisor's Wait on it had not returned when the
+				// request was made, or that was reaped only after the request was made: the pid-reuse window every
+				// signal-by-pid interface has. (A request for a process whose Wait had returned before - the defect F19
+				// repaired - is not in this class.)
+				for _, c := range calls {
+					if c.startSeq >= s.Seq || c.endSeq < s.Seq || !(s.Sig == simkernel.SIGTERM && c.kind == "terminate" || s.Sig == simkernel.SIGKILL && c.kind == "kill") {
+						continue
+					}
+					for _, other := range order {
+						if other.name == c.name && other.proc != nil && other.proc.ReapedSeq > 0 && other.proc.ReapedSeq < s.Seq &&
+							(other.proc.WaitDoneSeq == 0 || other.proc.WaitDoneSeq > c.startSeq) {
+							r.Known = fmt.Sprintf("pid-reuse-toctou@%s(%s)", c.kind, c.name)
+						}
+					}
 				}
 			}
 			r.Check(explained, "C19.stray-signal", "%v received signal %d (kill argument %d) although no request for %s had asked for it", kp, int(s.Sig), s.Target, pl.name)
